@@ -27,7 +27,8 @@ CLAIM = ('Every attribute of the objects that survive a parse (HTMLParser, its 2
          'state that a later parse reads. No class-level mutable container is mutated in place through self '
          'without a per-instance rebind in __init__. A handler slot that survives reset() holds only handlers '
          'that restore the default and re-validate the current node; factory caches key on keyword values.'
-         ' The shared factory cache publishes only finished values and guards each level with the key it creates.')
+         ' The shared factory cache publishes only finished values and guards each level with the key it creates.'
+         ' What a reset root stores it stores on every path and from arguments and constants only; a cached value built from a parameter is keyed by the parameter itself, not by a projection of it.')
 NOT_DECIDED = "thread interleavings beyond the shared-state inventory and the cache-publication rule; state kept inside third-party objects."
 MODULES = ["html5parser.py", "treebuilders/base.py", "treebuilders/etree.py", "treebuilders/dom.py", "_tokenizer.py",
            "_inputstream.py", "_utils.py", "_trie/py.py", "_trie/_base.py", "serializer.py", "treebuilders/__init__.py",
